@@ -47,7 +47,7 @@ def check(ctx):
     g = ctx.graph(c, '_can_accept_part', boolean=True, opaque=OPQ)
 
     def is_cap_guard(n, truth):
-        r = cmp_norm(N, n.ast, FrameEnv(n.frame), truth)
+        r = cmp_norm(N, n.ast, FrameEnv(n.frame), truth, names=True)      # also through a boolean local (`has_room = ...`)
         if not r:
             return False
         lin, op = r
@@ -186,7 +186,7 @@ def check(ctx):
             o.fail(P, 'Buffer._pass_part_downstream', None, 'the part offered downstream is not the head of the storage list', node=h)
 
     def is_wait_guard(n, truth):
-        r = cmp_norm(N, n.ast, FrameEnv(n.frame), truth)
+        r = cmp_norm(N, n.ast, FrameEnv(n.frame), truth, names=True)
         if not r:
             return False
         lin, op = r
